@@ -157,6 +157,9 @@ STAGES.update({
             ('headers-and-names', 'MimeBuild', cfg(MAXP='1', MAXE='1', MAXA='1', ENCS='{"qp"}', ROUNDTRIP='{TRUE}', CCS='<<"crlf", "utf8">>',
                                                    HDRS=hdrsets(["subject", "fromname", "toname", "cc"], ["plain", "utf8", "long", "quotes", "blanks", "dwords20"]),
                                                    FNAMES='{"", "utf8", "semi", "blanks", "dotted", "longutf8"}')),
+            # attachments that carry a Content-ID stay attachments; the importance fields (which the parser carries over) come back once each
+            ('content-ids-and-importance', 'MimeBuild', cfg(MAXP='1', MAXE='1', MAXA='2', ENCS='{"qp", "b64"}', ROUNDTRIP='{TRUE}', CCS='<<"crlf", "utf8">>',
+                                                            HDRS='{<<>>} \\cup ' + hdrsets(["importance"], ["plain", "utf8", "long", "blanks"]), FCIDS='{"", "plain"}', FNAMES='{"", "utf8"}')),
         ],
         'thorough': [
             ('shapes', 'MimeBuild', cfg(MAXP='3', MAXE='2', MAXA='2', ENCS='{"qp", "b64", "8bit"}', PENCS='{"", "b64", "qp", "8bit"}', FENCS='{"", "8bit"}',
